@@ -218,6 +218,7 @@ class Session:
         self.clock_i = 0
         self.peer = None
         self.in_wait_for = False
+        self.dirty = False
 
     # -- clock / rng seams
     def clock_read(self):
@@ -268,10 +269,10 @@ class Session:
             seg = data[pos : pos + s]
             pos += s
             self.to_client_t = max(self.to_client_t, self.q.now) + self.frag.choice([0.0, 0.001, 0.02, 0.5])
-            self.q.after(self.to_client_t - self.q.now, self._deliver_to_client, seg)
+            self.q.at(self.to_client_t, self._deliver_to_client, seg)
         if close_after:
             self.to_client_t = max(self.to_client_t, self.q.now) + 0.001
-            self.q.after(self.to_client_t - self.q.now, self._close_to_client)
+            self.q.at(self.to_client_t, self._close_to_client)
 
     def _deliver_to_client(self, seg):
         self.rx += seg
@@ -288,7 +289,7 @@ class Session:
             seg = data[pos : pos + s]
             pos += s
             self.to_peer_t = max(self.to_peer_t, self.q.now) + self.frag.choice([0.0, 0.001, 0.02, 0.5])
-            self.q.after(self.to_peer_t - self.q.now, self.peer.on_bytes, seg)
+            self.q.at(self.to_peer_t, self.peer.on_bytes, seg)
 
     def client_read(self, n):
         if n is None or n < 0:
@@ -899,7 +900,7 @@ def run_step(sess, cl, peer, step, prop):
         tr.oracle("P3_pong")
         if obj.nonce != payload or obj.serialize() != payload:
             fail("C19", "P3", "pong_fields", "PongMessage does not carry the received nonce")
-        if not step.get("fault") and payload != nonce:
+        if not sess.dirty and payload != nonce:
             fail("C19", "P3", "pong_nonce", "honest pong carried another nonce")
         return
     if op == "echo":
@@ -951,7 +952,7 @@ def run_step(sess, cl, peer, step, prop):
             fail("C19", "P2", "getheaders_layout", f"getheaders decodes to {d}")
         hm, payload = cl.wait_for(HeadersMessage)
         hs, ref_valid = check_headers_msg(sess, hm, payload)
-        if not step.get("fault"):
+        if not sess.dirty:
             if not ref_valid:
                 fail("C17", "M3", "honest_headers_invalid", "honest header batch judged invalid by the reference (harness)")
             if hs and rp.dec_header(hs[0])["prev"] != start:
@@ -1051,7 +1052,7 @@ def run_step(sess, cl, peer, step, prop):
         for t in got_ids:
             if t not in union:
                 fail("C17", "M1", "returned_foreign_tx", f"get_filtered_txs returned {t.hex()} which is in none of the requested blocks")
-        if not step.get("fault"):
+        if not sess.dirty:
             # M2 completeness: honest proof yields exactly the matched ids in block order
             exp = [t for _, ids in allowed for t in ids]
             tr.oracle("M2")
@@ -1074,9 +1075,9 @@ def run_step(sess, cl, peer, step, prop):
         t0 = sess.q.now
         res = node.is_tx_accepted(tx_obj)
         tr.oracle("P3_tx_accepted")
-        if sess.q.now - t0 < 1.0:
+        if sess.q.now - t0 < 1.0 - 1e-9:
             fail("C19", "P3", "sleep_not_honoured", "is_tx_accepted returned in less than its 1 s propagation delay")
-        if not step.get("fault") and not step.get("unknown") and res is not True:
+        if not sess.dirty and not step.get("unknown") and res is not True:
             fail("C19", "P4", "tx_accepted_false", "honest peer served the transaction but is_tx_accepted did not return True")
         return
     if op == "cfilters":
@@ -1189,6 +1190,7 @@ def execute(plan, prop, trace):
             fault = step.get("fault")
             if fault:
                 dirty = True
+            sess.dirty = dirty
             try:
                 run_step(sess, cl, peer, step, prop)
                 outcomes.append("ok")
